@@ -458,3 +458,18 @@ Proof. intros Hr P. rewrite (write_order_independent d _ _ P). exact (write_deno
 Example order_must_enumerate_the_keys :
   ssa_differ (write_ssa ex_doc []) (write_ssa ex_doc (style_keys ex_doc)) = true.
 Proof. vm_compute. reflexivity. Qed.
+
+(* ================= the same for every value the reader returns ================= *)
+(* Every reading theorem (read_rendered, read_sections, ...) returns a value of the shape rendered_doc b sts evs; the
+   fixpoint property needs nothing else about where it came from. *)
+Theorem rewrite_reader_image b sts evs order : info_ok b -> Forall style_repr sts -> ~ In n_star_default (map ay_name sts) ->
+  evs <> [] -> Forall event_image_ok evs -> Permutation order (style_keys (rendered_doc b sts evs)) ->
+  exists data d', write_ssa (rendered_doc b sts evs) order = Ok data /\ read_ssa data = Ok d' /\
+                  (forall order', Permutation order' (style_keys d') -> write_ssa d' order' = Ok data).
+Proof.
+  intros Hb Hsr Hstar Hne Hev P. apply rewrite_image; [|exact P]. apply rendered_doc_image; [exact Hb | exact Hsr | exact Hne|].
+  revert Hev. apply Forall_impl. intros ev Hok. apply event_item_repr; [exact Hok | |].
+  - intros Hin. apply styles_map_keys in Hin. apply in_map_iff in Hin. destruct Hin as (st & E & Hst').
+    rewrite Forall_forall in Hsr. destruct (Hsr st Hst') as (_ & Hn & _). exact (Hn E).
+  - intros Hin. apply Hstar. apply styles_map_keys. exact Hin.
+Qed.
